@@ -133,8 +133,14 @@ class NeighboringBinHistSmoothingMethod(
                     f'shape value ({h.shape[d]:d}) of dimension {d:d} of '
                     'ndarray h!')
 
-        norm = scipy.signal.convolve(np.ones_like(h), self._k, mode="same")
-        smoothed_h = scipy.signal.convolve(h, self._k, mode="same") / norm
+        # Use the direct convolution method. The automatically chosen FFT
+        # method introduces rounding errors of the order of 1e-16, which turn
+        # bin values, that should be exactly zero, into negative values, e.g.
+        # for probability density histograms.
+        norm = scipy.signal.convolve(
+            np.ones_like(h), self._k, mode="same", method="direct")
+        smoothed_h = scipy.signal.convolve(
+            h, self._k, mode="same", method="direct") / norm
 
         return smoothed_h
 
